@@ -168,6 +168,7 @@ def step(reg, e, objs):
     if via:
         # the same string through the conversion entry points, from the same registry state (dicts restored afterwards;
         # process-wide memos are deliberately not)
+        reg.unit_system_id  # memoise the registry id (hashing a Unit recomputes it otherwise: ~1 ms per call)
         snap = _snapshot(reg)
         out["via"] = _via_convert(reg, e["str"])
         _restore(reg, snap)
